@@ -127,7 +127,7 @@ package nsqd
 //@ pred reqParsable(params [][]byte) := len(params) >= 3 && len(params[1]) == 16 && allDigits(params[2]) && decOf(params[2]) < 18446744073709551616
 //@ func (p *protocolV2) REQ(client *clientV2, params [][]byte) ([]byte, error)
 //@   onreturn cmdHandled := cmdHandled + 1
-//@   props C02 C03 C09
+//@   props C02 C03 C09 C04
 //@   requires p != nil && p.nsqd != nil && client != nil
 //@   requires[subscribed-has-channel] hasChannel(client)
 //@   ensures[state-check] !old(consuming(client)) ==> fatalErr(result1, "E_INVALID") && reqCalls == old(reqCalls)
@@ -217,6 +217,7 @@ package nsqd
 //@   props C09 C03 C02
 //@   requires p != nil && p.nsqd != nil && client != nil && len(params) >= 1
 //@   requires[subscribed-has-channel] hasChannel(client)
+//@   requires[publish-context] validPubCtx(p, client)
 //@   ensures[errors-typed] result1 != nil ==> typedErr(result1)
 //@   ensures[unknown-command] cmdHandled == old(cmdHandled) ==> fatalErr(result1, "E_INVALID")
 //@   ensures[tls-required] curOpts(p.nsqd).TLSRequired != TLSNotRequired && old(client.TLS) != 1 && identifyCalls == old(identifyCalls) ==> fatalErr(result1, "E_INVALID") && cmdHandled == old(cmdHandled)
